@@ -1583,6 +1583,24 @@ M("d11-text-check-after-dispatch", ["C17"], W,
 ''',
   ["R17.text"], "bind stores appid / side before the check")
 
+M("mc5-close-mood-from-other-field", ["C15"], W,
+  '''        self._mailbox.close(self._side, msg.get("mood"), server_rx)''',
+  '''        self._mailbox.close(self._side, msg.get("mailbox"), server_rx)''',
+  ["R15.mood"], "campaign 5 survivor: the mood column receives another field")
+
+M("mc5-close-named-guard-on-handle", ["C17", "C08"], W,
+  '''        if "mailbox" in msg:
+            if self._mailbox_id is not None:''',
+  '''        if "mailbox" in msg:
+            if self._mailbox is not None:''',
+  ["R17.names", "R08.names"], "campaign 5 survivor: the handle, not the name, guards the mismatch test")
+M("mc5-close-bare-guard-on-handle", ["C17", "C08"], W,
+  '''            if self._mailbox_id is None:
+                raise Error("close without mailbox must follow open")''',
+  '''            if self._mailbox is None:
+                raise Error("close without mailbox must follow open")''',
+  ["R17.names", "R08.names"], "campaign 5 survivor: a bare close after the mailbox was deleted is refused")
+
 def apply_mutant(repo_root, m, base_texts=None):
     """-> overrides dict or None when the anchor text is gone"""
     edits = [(m["path"], m["old"], m["new"])] + EXTRA.get(m["id"], [])
